@@ -17,7 +17,8 @@ oracles (implementation alone): autograd Jacobian at the design orbit vs transfe
                  track(L1);track(L2) vs track(L1+L2) (Drift, Quadrupole incl. num_steps, Dipole), straight-line drift in
                  50-digit arithmetic, TDC(V=0) vs Drift(bmadx), on-axis quadrupole = drift, momentum scaling of the quadrupole, dipole body vs an
                  independent 40-digit computation of the motion in a uniform field.
-Known finding F70 (bend angle < -pi: wrong path length) is replayed on every run.  Known NaN configurations (finding F8 of C09: Bmad-X Dipole angle=0, Quadrupole/Dipole length=0) are not generated.
+Finding F70 (bend angle < -pi: arctan2 wraps, wrong path length): the STATUS of F70 selects the transcription that is compared with the code
+(known -> bend_bmadx_track, KNOWN-FINDING line / stale-status note; fixed -> bend_bmadx_track_fixed, angles +-(3.3..5.6) exercised, stored input = regression test).  Known NaN configurations (finding F8 of C09: Bmad-X Dipole angle=0, Quadrupole/Dipole length=0) are not generated.
 """
 import json
 import math
@@ -96,6 +97,8 @@ def gen_spec(rng, cls):
         ang = round(rng.choice([-1, 1]) * rng.uniform(0.02, 0.6), 3)       # angle = 0 -> NaN (F8, owned by C09): not generated
         if rng.random() < 0.3:      # bends of 90 degrees and more take the other exit-position branch (c2) of the Bmad-X body
             ang = round(rng.choice([-1, 1]) * rng.uniform(1.6, 2.6), 3)
+        if F70_FIXED and rng.random() < 0.2:      # after the repair of F70 bends beyond +-pi are in scope
+            ang = round(rng.choice([-1, -1, 1]) * rng.uniform(3.3, 5.6), 3)
         g = round(rng.uniform(0.0, 0.05), 3)
         fi = rng.choice([0.0, 0.5, round(rng.uniform(0, 0.7), 2)])
         return {"cls": "Dipole", "kw": {"length": L, "angle": ang, "dipole_e1": rng.choice([0.0, round(rng.uniform(-0.3, 0.3), 3)]),
@@ -285,6 +288,20 @@ PRE_B = """From Coq Require Import Reals Lra.
 From Interval Require Import Tactic.
 From Cheetah Require Import Bmadx.Coords Bmadx.DriftX Bmadx.Tdc Bmadx.BendX Bmadx.BendXProofs Bmadx.BendXTac.
 Open Scope R_scope."""
+F70_FIXED = False     # which transcription of Dipole._bmadx_body is the faithful one; set by main() from the STATUS of finding F70:
+#   known -> the code before the repair (bend_bmadx_track; angles below -pi are a known finding and are not generated)
+#   fixed -> the repaired code (bend_bmadx_track_fixed: theta_p - 4 pi round((theta_p - angle)/(4 pi))); generators then exercise
+#            bend angles in +-(3.3..5.6) rad and the stored F70 input is a regression test
+
+
+def f70_status():
+    """'known' / 'fixed' / None (not listed) for finding F70 of C07 in the known-findings file"""
+    st = [f.get("status") for f in common.load_known_findings(PID) if f.get("id") == "F70"]
+    if "known" in st:
+        return "known"
+    return st[0] if st else None
+
+
 FRINGE_AT = {"both": (True, True), "entrance": (True, False), "exit": (False, True), "neither": (False, False)}
 
 
@@ -295,6 +312,8 @@ def gen_bcase(rng, k):
     L = round(rng.uniform(0.05, 1.5), 3)
     sgn = 1 if (k // 2) % 2 == 0 else -1
     ang = round(sgn * (rng.uniform(1.6, 2.6) if k % 2 else rng.uniform(0.02, 0.6)), 3)
+    if F70_FIXED and k % 2 and (k // 4) % 2 == (0 if sgn < 0 else 1):
+        ang = round(sgn * rng.uniform(3.3, 5.6), 3)       # beyond +-pi: below -pi arctan2 wraps and the repaired code rounds theta_p back (F70)
     gap = round(rng.uniform(0.0, 0.05), 3)
     fi = rng.choice([0.0, 0.5, round(rng.uniform(0, 0.7), 2)])
     same = rng.random() < 0.5
@@ -315,7 +334,7 @@ def gen_bcase(rng, k):
 
 def bend_masks(kw, p, E0):
     """the branches Dipole._bmadx_body takes for this particle, computed in float64 along the lines of the code: (sel, quadrant) as Coq
-    terms, or None when the particle sits within 1e-9 of a branch edge (unspecified there: the Coq model compares exact reals)"""
+    terms (plus, in the `fixed` state of F70, the integer torch.round((theta_p - angle)/(4 pi))), or None when the particle sits within 1e-9 of a branch edge (unspecified there: the Coq model compares exact reals)"""
     m = m_eV()
     L, ang, tilt = kw["length"], kw["angle"], kw["tilt"]
     fen, _ = FRINGE_AT[kw.get("fringe_at", "both")]
@@ -358,9 +377,16 @@ def bend_masks(kw, p, E0):
         return None
     qd = "Qright" if u > 0 else ("Qleft_up" if v >= 0 else "Qleft_down")
     th = 2 * (ang + ph - math.pi / 2 - math.atan2(v, u))
+    kz = None
+    if F70_FIXED:
+        fr = (th - ang) / (4 * math.pi)
+        kz = round(fr)
+        if abs(abs(fr - kz) - 0.5) < 1e-6:
+            return None
+        th = th - 4 * math.pi * kz
     if abs(th) < 1e-9:
         return None
-    return ("true" if sel else "false"), qd
+    return ("true" if sel else "false"), qd, kz
 
 
 def bend_goals(case, out, e_out):
@@ -386,9 +412,10 @@ def bend_goals(case, out, e_out):
         cj = []
         for acc, j, scale in (("cx", 0, st), ("cpx", 1, st), ("cy", 2, st), ("cpy", 3, st), ("ctau", 4, L), ("cdelta", 5, 1.0)):
             cj.append(f"Rabs ({acc} o - {dyadic(o[j])}) <= {dyadic(REL_Q * cnd * (abs(o[j]) + scale))}")
-        stmt = (f"let o := bend_bmadx_track {'true' if fen else 'false'} {'true' if fex else 'false'} {b} {dyadic(E0)} {dyadic(m)} {v} in "
+        fn = "bend_bmadx_track_fixed" if F70_FIXED else "bend_bmadx_track"
+        stmt = (f"let o := {fn} {'true' if fen else 'false'} {'true' if fex else 'false'} {b} {dyadic(E0)} {dyadic(m)} {v} in "
                 + " /\\ ".join(cj))
-        gs.append((stmt, f"bendx_goal {mk[0]} {mk[1]}."))
+        gs.append((stmt, f"bendx_goal_fixed {mk[0]} {mk[1]} ({mk[2]})%Z." if F70_FIXED else f"bendx_goal {mk[0]} {mk[1]}."))
     return gs, skipped
 
 
@@ -546,6 +573,11 @@ def main(tier, replay=None):
                        "angles +-(0.02..0.6) and +-(1.6..2.6) rad cycling (both exit-position branches c1/c2, both arctan2 quadrants), gap_exit/fint_exit differing from gap/fint in half of the cases, "
                        "tilt {0, random, pi/2}, fringe_at cycling both/entrance/exit/neither, delta in {0, +-0.05}; NaN configurations of finding F8 (angle=0, length=0) are not generated; "
                        "non-trivial = every case (non-zero length, off-axis particles); distinct by full input")
+    global F70_FIXED
+    st70 = f70_status()
+    F70_FIXED = st70 == "fixed"
+    run.cov["dipole_model"] = ("bend_bmadx_track_fixed (code after the repair of F70)" if F70_FIXED
+                               else "bend_bmadx_track (code before the repair of F70: theta_p straight from arctan2)")
     if replay:
         return do_replay(run, replay)
     proof_ok = run.proof_stage()
@@ -627,7 +659,7 @@ def main(tier, replay=None):
         run.add_case(bc, True)
         run.count("bend_correspondence")
         kw = bc["spec"]["kw"]
-        run.count("bendc_angle_" + ("large" if abs(kw["angle"]) > 1.5 else "small") + ("_neg" if kw["angle"] < 0 else "_pos"))
+        run.count("bendc_angle_" + ("beyond_pi" if abs(kw["angle"]) > math.pi else "large" if abs(kw["angle"]) > 1.5 else "small") + ("_neg" if kw["angle"] < 0 else "_pos"))
         run.count("bendc_fringe_at_" + kw["fringe_at"])
         run.count("bendc_tilted" if kw["tilt"] != 0 else "bendc_untilted")
         run.count("bendc_gap_exit_differs" if kw["gap_exit"] != kw["gap"] or kw["fringe_integral_exit"] != kw["fringe_integral"] else "bendc_gap_exit_same")
@@ -644,7 +676,7 @@ def main(tier, replay=None):
             continue
         gs, skipped = bend_goals(bc, out, e_out)
         for g_ in gs[1:]:
-            run.count("bendc_branch_" + g_[1].replace("bendx_goal ", "").rstrip(".").replace(" ", "_"))
+            run.count("bendc_branch_" + g_[1].replace("bendx_goal_fixed ", "").replace("bendx_goal ", "").rstrip(".").replace(" ", "_").replace("(", "k").replace(")%Z", ""))
         b_edge += skipped
         bgoals += gs
         bowner += [dict(bc, observed=out, observed_energy=e_out)] * len(gs)
@@ -699,7 +731,13 @@ def main(tier, replay=None):
         except Exception as ex:
             obs = "exception: " + repr(ex)[:200]
         if obs is None:
-            run.cov["known_findings_not_reproduced"].append("F70")
+            if kf.get("status") == "known":
+                run.cov["known_findings_not_reproduced"].append("F70")
+                run.notes.append("finding F70 is listed as known but its stored input no longer fails (the design particle of Dipole(angle=-4) comes out at 0): "
+                                 "the code looks repaired and the status is stale -- flip F70 to `fixed` so that the repaired model bend_bmadx_track_fixed is "
+                                 "checked and bend angles below -pi are exercised")
+            else:
+                run.cov["regression_inputs_replayed"] = run.cov.get("regression_inputs_replayed", 0) + 1
         elif kf.get("status") == "known":
             run.known(f"Bmad-X Dipole with angle < -pi displaces the design particle longitudinally: angle={kf.get('replay', F70_INPUT)['spec']['kw']['angle']} observed={obs} [F70]",
                       replay=kf.get("replay", F70_INPUT))
